@@ -826,9 +826,25 @@ def g_stateless(rng, pairs, depth, names=None, direct_count=True):
     return g_runif(rng, pairs, depth - 1, names)
 
 
+def _eager_ok(stages, rng):
+    """The model evaluates `seq.run(...)` of an inner sequence (RunIf) or of a branch (Split) at once.  That is what
+    the lazily evaluated real code computes unless an element with a side effect (a Count) is followed, in the same
+    sequence, by an element that may stop pulling (a Slice): then the real Count sees fewer values.  Such sequences
+    are not generated: a Slice after a Count-bearing element is replaced by a Filter."""
+    seen = False
+    out = []
+    for st in stages:
+        if seen and st["t"] == "slice":
+            st = g_filter(rng)
+        if '"count"' in json.dumps(st):
+            seen = True
+        out.append(st)
+    return out
+
+
 def g_runif(rng, pairs, depth, names=None):
     return {"t": "runif", "p": rng.choice(PREDS), "seqarg": rng.random() < 0.25,
-            "inner": [g_stateless(rng, pairs, depth, names) for _ in range(rng.randint(0, 2))]}
+            "inner": _eager_ok([g_stateless(rng, pairs, depth, names) for _ in range(rng.randint(0, 2))], rng)}
 
 
 def g_split(rng, pairs, names, infinite=False):
@@ -837,7 +853,8 @@ def g_split(rng, pairs, names, infinite=False):
     for _ in range(nb):
         r0 = rng.random()
         if r0 < 0.5:
-            stages = [g_stateless(rng, pairs, 1, names, direct_count=False) for _ in range(rng.randint(1, 2))]
+            stages = _eager_ok([g_stateless(rng, pairs, 1, names, direct_count=False)
+                                for _ in range(rng.randint(1, 2))], rng)
             brs.append({"k": "seq", "stages": stages, "bare": rng.random() < 0.3, "explicit": rng.random() < 0.2})
         elif r0 < 0.58:
             brs.append({"k": "src", "m": rng.randint(0, 3), "base": 100 * (1 + next(names)), "pairs": pairs})
@@ -1054,6 +1071,9 @@ TRUSTED = [
     "JSON line protocol encoders (harness/props/c02.py, drivers/C02.lean)",
 ]
 ASSUMPTIONS = [
+    "inside a block of Split and inside RunIf the model evaluates seq.run(...) at once; generated inner sequences and "
+    "branches never have a Slice after a Count-bearing element (there the lazily evaluated real Count would see fewer "
+    "values than the eager model: observed, see DESIGN notes) - pulls from the input are not affected",
     "the input is a generator (sticky end); only pulls from the instrumented input and values handed to the consumer "
     "are observed, so work done lazily inside Split between two block reads is modelled as done at once",
     "values are observed through their integer datum and integer-valued top-level context entries; Print, Context, "
